@@ -9,7 +9,7 @@ from ..monitors import find_token, find_token_deep
 
 PLAN = {
     "quick": {"shards": 8, "cases": 800, "min_nontrivial": 3500, "budget_s": 300},
-    "thorough": {"shards": 16, "cases": 5000, "min_nontrivial": 50000, "budget_s": 1500},
+    "thorough": {"shards": 16, "cases": 15000, "min_nontrivial": 84000, "budget_s": 1500},
 }
 RULE = ("a case is (hash algorithm, secret p as text or bytes - empty, Unicode, long, containing a unique token -, a set "
         "of near-miss secrets q: prefix, suffix, case flip, appended NUL, the base64 of the digest, p as the other "
